@@ -47,7 +47,10 @@ pub fn gen_case(seed: u64, run: u64, faults: bool) -> Case {
     }
     // one run in 400 works on a very large definition
     let big = r.chance(1, 400);
-    if big {
+    let wide = big && r.chance(1, 2);
+    if wide {
+        parsers[0] = wide_opts(&mut r);
+    } else if big {
         parsers[0] = big_opts(&mut r);
     }
     let mut env: Vec<(Tok, Tok)> = Vec::new();
@@ -175,6 +178,24 @@ pub fn gen_case(seed: u64, run: u64, faults: bool) -> Case {
         };
         ops.push(op);
     }
+    if wide {
+        // lines that go all the way down the wide definition: a good one, a request for help,
+        // and a mistake at the bottom
+        for line in [
+            &["one", "two", "three", "--leaf", "42"][..],
+            &["one", "two", "--help"][..],
+            &["one", "two", "three", "--leaf", "4x2"][..],
+            &["one", "--alt-1-3", "two"][..],
+        ] {
+            ops.push(Op::Run {
+                p: 0,
+                argv: line.iter().map(|w| w.as_bytes().to_vec()).collect(),
+                name: None,
+                comp: None,
+                cb: None,
+            });
+        }
+    }
     Case {
         prop: "C04".into(),
         seed,
@@ -248,6 +269,48 @@ pub fn big_opts(r: &mut Rng) -> Opts {
     o.descr = Some(help);
     o.version = Some("1.2.3");
     o
+}
+
+/// a definition that is wide rather than big: three command levels, each a choice between a
+/// dozen alternatives with the command that leads further down listed first - the shape on
+/// which work that doubles per alternative or per level shows
+pub fn wide_opts(_r: &mut Rng) -> Opts {
+    use crate::shape::{intern, Named, Shape, Ty};
+    let leaf = Shape::Arg {
+        named: Named {
+            shorts: vec![],
+            longs: vec!["leaf"],
+            envs: vec![],
+            help: Some(gen::TEXTS[0]),
+        },
+        metavar: "N",
+        ty: Ty::Int,
+        adjacent: false,
+    };
+    let mut inner = Opts::plain(leaf);
+    for (depth, name) in ["three", "two", "one"].iter().enumerate() {
+        let mut alts = vec![Shape::Cmd {
+            name,
+            shorts: vec![],
+            longs: vec![],
+            help: None,
+            adjacent: false,
+            opts: Box::new(inner),
+        }];
+        for k in 0..11 {
+            alts.push(Shape::ReqFlag(
+                Named {
+                    shorts: vec![],
+                    longs: vec![intern(&format!("alt-{}-{}", depth, k))],
+                    envs: vec![],
+                    help: None,
+                },
+                k,
+            ));
+        }
+        inner = Opts::plain(Shape::Alt(alts));
+    }
+    inner
 }
 
 pub fn valid_opts(r: &mut Rng, sw: &Swarm) -> Opts {
